@@ -87,6 +87,36 @@ def load_known():
     return json.load(open(p))
 
 
+def load_baseline():
+    p = os.path.join(ROOT, "baseline", "obligations.json")
+    if not os.path.exists(p):
+        return {}
+    return json.load(open(p))
+
+
+def record_baseline():
+    """Record the keys of all obligations discharged on the current tree (run on the unchanged tree only; committed)."""
+    from props.registry import PROPS
+    funcs = sorted({f for P in PROPS.values() for f in P.get("functions", [])})
+    res = run_deductive(funcs, "quick")
+    out = {}
+    bad = 0
+    for r in res:
+        if r["error"]:
+            print("error:", r["function"], r["error"])
+            bad += 1
+        for o in r["obligations"]:
+            if o["verdict"] == "unsat":
+                out[obligation_key(o)] = dict(function=o["func"], kind=o["kind"], note=o["note"][:200])
+            else:
+                print("not discharged:", o["name"], o["verdict"])
+                bad += 1
+    os.makedirs(os.path.join(ROOT, "baseline"), exist_ok=True)
+    json.dump(out, open(os.path.join(ROOT, "baseline", "obligations.json"), "w"), indent=0, sort_keys=True)
+    print("baseline: %d obligation keys from %d functions (%d problems)" % (len(out), len(funcs), bad))
+    return 0 if bad == 0 else 3
+
+
 def known_match(known, pid, sig):
     """sig: dict(function=..., kind=..., key=...) for deductive, dict(case=...) for bounded failures."""
     for f in known.get("findings", []):
@@ -122,7 +152,9 @@ def check_property(pid, tier):
         return 3
     P = PROPS[pid]
     known = load_known()
+    baseline = load_baseline()
     violations, undecided, errors, known_hits = [], [], [], []
+    fail_count, more_failed = {}, []
 
     # ---------------- deductive layer
     results = run_deductive(P.get("functions", []), tier)
@@ -153,6 +185,10 @@ def check_property(pid, tier):
             elif o["verdict"] == "sat":
                 sig = dict(function=o["func"], kind=o["kind"], key=obligation_key(o))
                 kf = known_match(known, pid, sig)
+                fail_count[o["func"]] = fail_count.get(o["func"], 0) + 1
+                if fail_count[o["func"]] > 3 and not kf:
+                    more_failed.append(o["name"])
+                    continue
                 case = replay_search(o["func"], o["model"], seed, 1500 if tier == "quick" else 20000)
                 payload = dict(property=pid, obligation=o["name"], kind=o["kind"], note=o["note"], key=sig["key"],
                                solver=dict(verdict="sat", backend=o["backend"], counter_model=o["model"], path=o["trace"]), case=case)
@@ -161,7 +197,25 @@ def check_property(pid, tier):
                 else:
                     violations.append((write_replay(pid, payload), o["name"], case is not None))
             else:
-                undecided.append(o["name"] + " :: " + o["note"][:120])
+                key = obligation_key(o)
+                fail_count[o["func"]] = fail_count.get(o["func"], 0) + 1
+                if key in baseline and fail_count[o["func"]] > 3:
+                    more_failed.append(o["name"])
+                    continue
+                if key in baseline:
+                    # an obligation that is discharged on the unchanged tree and no longer is: reported as a violation with the
+                    # solver's reason; a failing input is searched on the real code, else "no-failing-input-found"
+                    sig = dict(function=o["func"], kind=o["kind"], key=key)
+                    kf = known_match(known, pid, sig)
+                    case = replay_search(o["func"], None, seed, 1500 if tier == "quick" else 20000)
+                    payload = dict(property=pid, obligation=o["name"], kind=o["kind"], note=o["note"], key=key,
+                                   solver=dict(verdict="unknown (was discharged on the recorded baseline)", backend=o["backend"], path=o["trace"]), case=case)
+                    if kf:
+                        known_hits.append((kf, o["name"]))
+                    else:
+                        violations.append((write_replay(pid, payload), o["name"], case is not None))
+                else:
+                    undecided.append(o["name"] + " :: " + o["note"][:120])
     errors += dead
 
     # ---------------- bounded layer
@@ -197,7 +251,7 @@ def check_property(pid, tier):
         extraction_drops=EXTRACTION_LOSSES,
         samples=samples,
         explanation=P["explanation"],
-        undecided=undecided, checker_errors=errors,
+        undecided=undecided, checker_errors=errors, further_failed_obligations=more_failed,
         known_findings_reported=[k[0].get("what") for k in known_hits],
     )
     if bounded and not bounded.get("error"):
@@ -225,7 +279,14 @@ def check_property(pid, tier):
     print("%s [%s]: %d obligations, %d discharged, %d functions under contract; bounded: %s; %.1fs" % (
         pid, tier, n_obl, n_dis, len(funcs_uc), (bounded or {}).get("evaluations", "-"), time.time() - t0))
     if violations:
-        for path, name, has_input in violations:
+        per_fn = {}
+        shown = []
+        for v in violations:
+            fn = v[1].split("/")[0]
+            per_fn[fn] = per_fn.get(fn, 0) + 1
+            if per_fn[fn] <= 3:
+                shown.append(v)
+        for path, name, has_input in shown:
             print("VIOLATION property=%s replay=%s%s" % (pid, path, "" if has_input else " no-failing-input-found"))
             print("  failed obligation: %s" % name)
         return 1
@@ -258,6 +319,8 @@ def main(argv):
         return 3
     if argv[0] == "replay":
         return replay(argv[1])
+    if argv[0] == "--record-baseline":
+        return record_baseline()
     tier = os.environ.get("VERIF_TIER", "quick")
     if "--tier" in argv:
         tier = argv[argv.index("--tier") + 1]
